@@ -3,7 +3,7 @@
 # Applies the patch to /repo, runs the listed (default: all claimed) quick checks,
 # prints per-property exit codes and VIOLATION lines, and always restores /repo.
 set -u
-patch="$1"; shift
+patch=$(realpath "$1"); shift
 rev=""
 if [ "${1:-}" = "-R" ]; then rev="-R"; shift; fi
 cd /verif
